@@ -7,7 +7,11 @@ the real parser to yield the token AND the accessor to panic / the validator to 
 real parser itself rejects are 'reference gaps': they are named classes, assumed away, and a guard replays class
 representatives on every run (if the parser ever starts yielding them, that is reported)."""
 import os
+import re
+import subprocess
+import time
 from engine import rprop, replay as rp
+from engine.rx import solver
 from engine.rx import extract, rustre, ast as A
 from engine.common import log
 from refgrammar import w3c, rfc3987, bcp47
@@ -22,6 +26,55 @@ GAPS = [
     ("nt_bnode_label_accepted", "gap:colon-in-label", r"^[^:]*:(?:[^:]|:)*$", ["a:b", ":", ":a", "a:"],
      "N-Triples 1.1 PN_CHARS_U contains ':' (a:b); BNODE_ID (Turtle's production) does not; Rio rejects such labels"),
 ]
+
+
+def pname_expansion(ctx, rep, repo_iri, n_witnesses):
+    """Two-variable obligation: for every namespace IRI s1 (RFC 3987 IRI, what a @prefix declaration accepts) and every
+    decoded local name s2 (Turtle PN_LOCAL after unescaping), the expansion s1++s2 — which the Turtle-family parsers hand
+    out as an IRI without re-validation — is accepted by the IRI validator. Witness pairs are replayed through the real
+    Turtle parser (document `@prefix p: <s1> . <s> <p> p:s2 .`)."""
+    from engine.rx.ast import cset, sunion, sminus, cat, alt, star
+    esc_nopct = sminus(w3c.PN_LOCAL_ESC_CHARS, cset("%"))
+    first = sunion(w3c.PN_CHARS_U, cset(":"), w3c.DIG, esc_nopct)
+    rest = sunion(w3c.PN_CHARS, cset(".:"), esc_nopct)
+    local = cat(alt(first, w3c.PERCENT), star(alt(rest, w3c.PERCENT)))
+    al = A.Alphabet([repo_iri, rfc3987.IRI, local])
+    res = {"obligation": "pname_expansion_valid", "kind": "concat-subset", "A": "RFC 3987 IRI (namespace) ++ decoded Turtle PN_LOCAL", "B": "L(IRI_REGEX_SRC)",
+           "minterms": al.n, "witnesses": [], "queries": 0, "verdict": None,
+           "meaning": "an expanded prefixed name is a valid IRI, so Trusted::iri() cannot panic / wrap an invalid IRI"}
+    blocked = []
+    t0 = time.time()
+    while len(res["witnesses"]) < n_witnesses:
+        asserts = ['(= s (str.++ s1 s2))', '(str.in_re s %s)' % al.smt_sigma_star(), '(str.in_re s1 %s)' % al.smt(rfc3987.IRI),
+                   '(str.in_re s2 %s)' % al.smt(local), '(not (str.in_re s %s))' % al.smt(repo_iri)]
+        for b in blocked:
+            asserts.append('(not (= s "%s"))' % "".join(al.smt_char(k) for k in b))
+        script = solver.script_header(60000) + "(declare-const s1 String)(declare-const s2 String)\n" + \
+            "\n".join("(assert %s)" % a for a in asserts) + "\n(check-sat)\n(get-value (s1 s2))\n"
+        p = subprocess.run([solver.Z3_PRIMARY, "-in"], input=script, stdout=subprocess.PIPE, stderr=subprocess.STDOUT, text=True, timeout=180)
+        res["queries"] += 1
+        out = p.stdout.strip()
+        if out.startswith("unsat"):
+            if not res["witnesses"]:
+                res["verdict"] = "unsat"
+            break
+        m = re.search(r'\(\(s1 "((?:[^"]|"")*)"\)\s*\(s2 "((?:[^"]|"")*)"\)\)', out)
+        if not out.startswith("sat") or not m:
+            res["verdict"] = "inconclusive:" + out[:80]
+            break
+        k1, k2 = al.decode_model_string(m.group(1)), al.decode_model_string(m.group(2))
+        s1, s2 = al.concretize(k1), al.concretize(k2)
+        ok = A.matches(rfc3987.IRI, s1) and A.matches(local, s2) and not A.matches(repo_iri, s1 + s2)
+        ans = _rt.rt_eval(rep, [("parse", "ttl_pname", s1 + "\x1f" + s2)])[0]
+        res["witnesses"].append({"namespace": s1, "local": s2, "expansion": s1 + s2, "matcher_agrees": ok,
+                                 "replay": {"reproduced": True if ans.startswith("VIOLATION") else (None if ans.startswith("n/a") else False), "detail": ans[:300]}})
+        res["verdict"] = "sat"
+        blocked.append(k1 + k2)
+        if not ok:
+            res["verdict"] = "inconclusive:solver-and-matcher-disagree"
+            break
+    res["solver_s"] = round(time.time() - t0, 2)
+    return res
 
 
 def run(ctx):
@@ -81,13 +134,54 @@ def run(ctx):
             known_classes.setdefault(obl, []).append((key, rustre.parse(rx), what))
             ctx.assumptions.append("reference gap %s assumed away in %s (guarded by replay of %s): %s" % (key, obl, reps, what))
         for e in ctx.open_findings():
+            if "kind" not in e or "witness" not in e:
+                continue  # call-site findings (pname expansion) are handled with their obligation
             c, detail = _rt.confirmer(rep, [("parse", e["kind"])])(e["witness"])
             if c:
                 ctx.known("%s [%s]" % (e["what"], e["key"]))
                 known_classes.setdefault(e["obligation"], []).append((e["key"], rustre.parse(e["class_regex"]), e["what"]))
         results = rprop.run(ctx, obls, known_classes, max_witnesses=(6 if ctx.tier == "quick" else 20),
                             trusted=["Rio's lexers (only exercised in the replay)", "reference-gap classes (guarded natively each run)"])
-        ctx.coverage["traces_validated_against_impl"] = len(guard_reqs) + sum(len(r["witnesses"]) for r in results)
+        # prefixed-name expansion (two string variables)
+        pn = pname_expansion(ctx, rep, asts["IRI_REGEX_SRC"], 3 if ctx.tier == "quick" else 10)
+        from engine.common import log as _log
+        _log("[%s]   %-38s %-12s minterms=%-3d %.2fs %s" % (ctx.id, pn["obligation"], pn["verdict"], pn["minterms"], pn["solver_s"],
+                                                      ("witness %r + %r" % (pn["witnesses"][0]["namespace"], pn["witnesses"][0]["local"])) if pn["witnesses"] else ""))
+        ctx.coverage["samples"].append(pn)
+        ctx.coverage["queries"] = ctx.coverage.get("queries", 0) + pn["queries"]
+        if pn["verdict"] == "unsat":
+            ctx.coverage["obligations"] += 1
+            ctx.coverage["discharged"] += 1
+        else:
+            # not part of the proof-level count: reported as KNOWN-FINDING / VIOLATION below
+            ctx.coverage["obligations_outside_the_proof_count"] = [{"obligation": pn["obligation"], "verdict": pn["verdict"]}]
+        if pn["verdict"] == "unsat":
+            pass
+        elif pn["verdict"] == "sat":
+            conf = [w for w in pn["witnesses"] if w["replay"]["reproduced"]]
+            key = "C08:pname-expansion-unvalidated"
+            openf = {e["key"]: e for e in ctx.open_findings()}
+            if conf and key in openf:
+                # known finding, identified by its call site (prefixed-name expansion in the Turtle-family parsers); its stored witness must still fail
+                e = openf[key]
+                a = _rt.rt_eval(rep, [("parse", "ttl_pname", e["witness_namespace"] + "\x1f" + e["witness_local"])])[0]
+                if a.startswith("VIOLATION"):
+                    ctx.known("%s [%s]" % (e["what"], key))
+                    ctx.assumptions.append("known finding %s: obligation pname_expansion_valid is reported as KNOWN-FINDING, not as a violation" % key)
+                    pn["known_finding"] = key
+                else:
+                    w = conf[0]
+                    wp = ctx.write_witness("pname_expansion_valid", {"property": "C08", "mode": "parse", "kind": "ttl_pname", "string": w["namespace"] + "\x1f" + w["local"], "detail": w["replay"]["detail"]})
+                    ctx.violation(wp, "pname_expansion_valid: the stored witness of %s no longer fails but %r + %r does: %s" % (key, w["namespace"], w["local"], w["replay"]["detail"][:200]))
+            elif conf:
+                w = conf[0]
+                wp = ctx.write_witness("pname_expansion_valid", {"property": "C08", "mode": "parse", "kind": "ttl_pname", "string": w["namespace"] + "\x1f" + w["local"], "detail": w["replay"]["detail"]})
+                ctx.violation(wp, "pname_expansion_valid: `@prefix p: <%s>` + `p:%s` makes the real parser %s" % (w["namespace"], w["local"], w["replay"]["detail"][:200]))
+            else:
+                ctx.inconc("pname_expansion_valid: solver witnesses do not reproduce through the real Turtle parser: %s" % [w["replay"]["detail"][:80] for w in pn["witnesses"]])
+        else:
+            ctx.inconc("pname_expansion_valid: %s" % pn["verdict"])
+        ctx.coverage["traces_validated_against_impl"] = len(guard_reqs) + sum(len(r["witnesses"]) for r in results) + len(pn["witnesses"])
         for r in results:
             if r["verdict"] == "unsat":
                 continue
